@@ -1,5 +1,5 @@
 PROP = {
-    "groups": ["pausemodel", "pausecomp", "e2e-pause"],
+    "groups": ["pausemodel", "pausecomp", "pausedown", "pausedowncomp", "pauseprobe", "e2e-pause"],
     "timeout": 900,
     "nontrivial_floor": 0.02,
     "rule": "pausemodel: the REAL recvCheckV2 and checkStopAndPause of a real trzszTransfer (Timeout 1 s, protocol 2/3/4) are driven "
@@ -13,6 +13,18 @@ PROP = {
             "pausecomp: random schedules (moves of the four goroutines, ticks, pauses, resumes; T 3..14 ticks, sleeps 1..3, window 1/2/5, "
             "0..13 frames, pause budgets below and above the bound) run through BOTH extracted composition machines (the one built from the reader "
             "machine and the abstraction the theorem is proved for): same enabledness and abs_of(concrete) = abstract after every step. "
+            "pausedown: the REAL pipelineRecvData + pipelineSendAck goroutines of a real transfer (our side of a download; Timeout 1 s) under "
+            "real time on a 10 ms grid: DATA frames, the empty finish frame, pause, resume and 'disk has everything' at scripted slots (pause "
+            "with everything acknowledged / with a frame arriving during it / longer than the timeout so that the blocked read expires and is "
+            "retried into the pausing loop / two cycles / during the final-ack loop / disk event while pausing; random schedules); every line the "
+            "side writes (keep-alive '#SUCC:=', '#SUCC:len/step', progress '#SUCC:step', final '#SUCC:size') with its time (+-80 ms) is compared "
+            "with the extracted model on the same schedule (reader machine + gate in the data phase, then the final loop machine); direct "
+            "oracles: no error, no acknowledgement written while pausing. "
+            "pausedowncomp: as pausecomp, for the two download composition machines (ydstep built from the reader machine, ystep abstract). "
+            "pauseprobe: the REAL pipelineRecvAck goroutine over every sequence of up to 4 (thorough 6) acknowledgements and random longer ones "
+            "(buffer grows / does not, marked `pause` or not) starting in the buffer-size probing phase: which of them call bufInitDone() and when "
+            "the probing phase ends, against the model; direct oracle: in the probing phase every acknowledgement releases the encoder and "
+            "the goroutine never gets stuck; non-trivial = a pause-marked acknowledgement inside the probing phase. "
             "e2e-pause: real client (filter) vs real trz/tsz children, Ctrl-C typed at a sampled write boundary of either direction, "
             "'Continue' chosen after 0.3-3.5 s, 1-2 cycles, upload/download x base64/binary x protocol 3/4 x directory; oracles: no "
             "hang, success => identical trees, a pause clearly shorter than the timeout does not end in an error, no DATA frame "
@@ -21,7 +33,8 @@ PROP = {
                 "select chooses arbitrarily between simultaneously ready arms (the model orders events; schedules avoid ties); "
                 "the composition theorem assumes line latency 0 and a peer that processes lines as they arrive (fault-free exchange)"],
     "assumptions": ["protocol >= 3 on both sides (older protocols have no pause handling)",
-                    "composition: an episode of pausing lasts at most P ticks with P + one sleep (100 ms) < Timeout, and a new pause begins at least one sleep after the previous resume",
+                    "composition (both directions' data phase, upload's final phase): an episode of pausing lasts at most P ticks with P + one sleep (100 ms) < Timeout, and a new pause begins at least one sleep (upload final phase: more than one sleep) after the previous resume; the download's final-ack loop needs no bound on the pauses, only gate sleep and poll interval < Timeout",
+                    "final phases: the peer's acker polls every 200 ms < Timeout",
                     "Timeout > 0 for the no-hang statements (Timeout <= 0 means wait for ever by configuration)"],
 }
 TEXT = {
@@ -31,12 +44,18 @@ TEXT = {
             "state; the reader reports a timeout only when no pause began since the read took its generation snapshot and no resume "
             "timer is pending, never while paused; while pausing the gate lets no frame through except the one already past its check, "
             "and opens within one sleep after the resume; every blocked read has a timer; for pauses shorter than the timeout minus one "
-            "sleep the composed exchange delivers the same frames in the same order with no timeout on either side. The model is tied "
+            "sleep the composed exchange delivers the same frames in the same order with no timeout on either side, in the upload AND the "
+            "download direction (both proved for the composition of the reader machines themselves, via a simulation to an abstract "
+            "machine), and after the last frame of an upload; the download's final-ack loop survives pauses of any length; an un-paused "
+            "reader returns within one sleep plus two timeouts; in the buffer-size probing phase every acknowledgement releases the "
+            "encoder whatever its pause flag. The model is tied "
             "to the code by regenerated constants, a regenerated structural skeleton of the eight functions involved, differential "
             "execution of the extracted model against the real functions under real time, and end-to-end pause injection.",
     "note": "Trusted: Coq kernel, gen translator, extraction, OCaml driver, Go harness, the Go runtime's timers. The composition is proved for "
-            "latency 0 and an instantly reacting peer; for longer pauses an error is possible by design (the peer's reader sees no "
-            "keep-alive while our sender is blocked on the full ack window or has nothing to acknowledge), never a hang (every read has a "
-            "timer) and never a wrong success (C02).",
+            "latency 0 and an instantly reacting peer; for longer pauses an error is possible by design and shown by witness runs: in a "
+            "download our acker emits keep-alives only while it holds an acknowledgement, after the upload's last frame the peer waits "
+            "for the MD5 line with a plain timed read, and in the probing phase of an upload the sender has nothing to send until the "
+            "paused ack reader releases the encoder; never a hang (every read has a timer, proved bound max(1,sleep) + 2 Timeout) and "
+            "never a wrong success (C02).",
     "technique": "Coq proof (invariants over all event schedules) + regenerated constants and control skeleton + real-time differential execution + e2e pause injection",
 }
